@@ -34,7 +34,7 @@ type Ctx struct {
 }
 
 func loadCtx(repo string, patterns []string) (*Ctx, error) {
-	cfg := &packages.Config{Mode: packages.LoadAllSyntax, Dir: repo, Env: append(os.Environ(), "GOFLAGS=-mod=mod", "GOPROXY=off")}
+	cfg := &packages.Config{Mode: packages.LoadAllSyntax, Dir: repo, Env: append(os.Environ(), "GOFLAGS=-mod=mod", "GOPROXY=off"), BuildFlags: []string{"-tags=verif"}}
 	pkgs, err := packages.Load(cfg, patterns...)
 	if err != nil {
 		return nil, err
